@@ -21,6 +21,11 @@ func init() {
 	ref.RegisterNamed("gen.B1", reflect.TypeOf(gen.B1{}))
 	ref.RegisterNamed("gen.P", reflect.TypeOf(gen.P{}))
 	ref.RegisterNamed("gen.M", reflect.TypeOf(gen.M{}))
+	for n, v := range map[string]any{"gen.NBool": gen.NBool(false), "gen.NInt": gen.NInt(0), "gen.NInt8": gen.NInt8(0), "gen.NInt16": gen.NInt16(0), "gen.NInt32": gen.NInt32(0),
+		"gen.NInt64": gen.NInt64(0), "gen.NUint": gen.NUint(0), "gen.NUint8": gen.NUint8(0), "gen.NUint16": gen.NUint16(0), "gen.NUint32": gen.NUint32(0), "gen.NUint64": gen.NUint64(0),
+		"gen.NFloat32": gen.NFloat32(0), "gen.NFloat64": gen.NFloat64(0), "gen.NString": gen.NString("")} {
+		ref.RegisterNamed(n, reflect.TypeOf(v))
+	}
 }
 
 // withRecursive appends the recursive family to a universe.
